@@ -71,6 +71,10 @@ def check(repo, col, tier):
     # ---- singular voltages at call sites (witnesses)
     _call_site_witnesses(repo, col, helpers)
 
+    # ---- divisions written directly in the gate functions (a bypassed helper)
+    from . import c05
+    c05.gate_divisions(repo, col, "R-C03-singular")
+
     # ---- the steady state / rate each update moves toward are the mechanism's own (reference equations)
     col.rule("R-C03-steady", "every state relaxes toward the steady state and with the rate of its reference kinetics", 10)
     from . import c04
@@ -82,6 +86,16 @@ def check(repo, col, tier):
         if cinfo is None:
             raise AnalysisError(f"built-in mechanism class {name} vanished")
         c04.update_laws(repo, col, "R-C03-steady", name, sp, cinfo, sp["kind"])
+        for fn, (args, _gk, ra, rb) in sp["gates"].items():
+            ev = kin.new_eval(repo)
+            gfi = cinfo.methods.get(fn)
+            if gfi is None:
+                continue
+            try:
+                ev.call(gfi, [kin.A(a) for a in args], selfv=ObjV(name))
+                c04.clipped_exponentials(repo, col, "R-C03-steady", ev, gfi, name, fn, (ra, rb))
+            except Und as e:
+                col.unk("R-C03-steady", gfi, fn, f"outside the analysable fragment: {e}", node=gfi.node)
 
 
 # --------------------------------------------------------------------------------------
